@@ -132,3 +132,91 @@ Proof.
     apply (reaches_stops_at orc prog sa sb _ _ Hsim2 eq_refl).
     rewrite <- Emb. apply (stops_at_now orc prog sb _ Hstep).
 Qed.
+
+Theorem compile_expr_fail : forall orc e, in_F1e e = true -> expr_fail_sim orc e.
+Proof.
+  intros orc e. induction e as [l IHl op r IHr|op r IHr|z| |b| |x| | |l IHl r IHr| | | |];
+    intros HF; try discriminate HF; cbn [in_F1e] in HF.
+  - (* EInfix *)
+    apply andb_prop in HF. destruct HF as [HF Hr]. apply andb_prop in HF. destruct HF as [Hop Hl].
+    specialize (IHl Hl). specialize (IHr Hr).
+    intros st st' Hg H ce Hce prog Hcode Hconsts s Hip Hnok. rewrite ce_infix in H.
+    destruct (fused_candidate l r op) as [[[name v] op']|] eqn:Ef.
+    + destruct (compile_const_var_infix name v op' st) as [st1 done] eqn:Ec.
+      destruct (const_var_infix_global _ _ _ _ _ _ Hg Ec) as [-> [Hs1 [Hc1 [kx1 [Hk1 Hf1]]]]].
+      assert (gtab (c_symbols st1)) as Hg1 by (rewrite Hs1; exact Hg).
+      assert (code_len st1 = code_len st) as L by (unfold code_len; rewrite Hc1; reflexivity).
+      rewrite <- Hs1. rewrite <- Hs1 in Hnok.
+      apply (generic_infix_fail orc l op r Hl Hr IHl IHr Hop st1 st' Hg1 H ce); try assumption.
+      * rewrite Hc1. exact Hce.
+      * rewrite L. exact Hcode.
+      * rewrite L. exact Hip.
+    + exact (generic_infix_fail orc l op r Hl Hr IHl IHr Hop st st' Hg H ce Hce prog Hcode Hconsts s Hip Hnok).
+  - (* EPrefix *)
+    apply andb_prop in HF. destruct HF as [Hop Hr]. specialize (IHr Hr).
+    intros st st' Hg H ce Hce prog Hcode Hconsts s Hip Hnok. rewrite ce_prefix in H.
+    apply bind_ok in H. destruct H as [st1 [H1 H]].
+    destruct (compile_expr_sim orc r Hr st st1 (or_intror Hg) H1) as [Hs1 [ce1 [kx1 [Hc1 [Hk1 [Hf1 Hsim1]]]]]].
+    pose proof (code_len_app _ _ _ Hc1) as L1.
+    assert (exists opc, st' = emit_opcode opc st1 /\
+              ((opc = ONot /\ op = OpNot) \/ (opc = ONegate /\ (op = OpSubtract \/ op = OpNegate)))) as [opc [-> Hopc]].
+    { destruct op; try discriminate Hop; inversion H; eexists; split; try reflexivity; tauto. }
+    clear H. cbn [emit_opcode c_symbols c_code c_constants] in Hce, Hconsts.
+    assert (ce = ce1 ++ [byte_of_opcode opc]) as ->.
+    { apply (app_inv_head (c_code st)). rewrite <- Hce, Hc1, <- !app_assoc. reflexivity. }
+    apply code_at_app in Hcode. destruct Hcode as [Hcode1 Hcode2]. rewrite <- L1 in Hcode2.
+    specialize (Hsim1 prog Hcode1 Hconsts s Hip).
+    specialize (IHr st st1 Hg H1 ce1 Hc1 prog Hcode1 Hconsts s Hip).
+    cbn [peval pfail] in *.
+    destruct (peval orc (resolve (c_symbols st)) r (mst_of s)) as [[a m1]| | |]; cbn [bind] in *;
+      try (apply IHr; intros a0; discriminate).
+    cbn [sim_expr] in Hsim1.
+    set (sa := setm s (a :: v_stack s) (v_slen s + 1) (code_len st1) m1) in *.
+    assert (mst_of sa = m1) as Esa by (unfold sa; apply mst_of_setm).
+    apply (reaches_stops_at orc prog s sa _ _ Hsim1 eq_refl). rewrite <- Esa.
+    destruct Hopc as [[-> ->]|[-> Hop2]].
+    + pose proof (step_not orc prog sa a (v_stack s) [] Hcode2 eq_refl) as Hstep.
+      destruct (lognot a) as [x| | |]; cbn [bind retag] in *;
+        [exfalso; eapply Hnok; reflexivity|apply (stops_at_now orc prog sa _ Hstep)..].
+    + pose proof (step_negate orc prog sa a (v_stack s) [] Hcode2 eq_refl) as Hstep.
+      change (v_heap sa) with (m_heap m1) in Hstep.
+      assert (match op with
+              | OpNegate | OpSubtract => do x <- negate (m_heap m1) a; Ok (fst x, with_new_m m1 x)
+              | OpNot => do x <- lognot a; Ok (x, m1)
+              | _ => Err ETypeError
+              end = (do x <- negate (m_heap m1) a; Ok (fst x, with_new_m m1 x))) as Eop.
+      { destruct Hop2 as [-> | ->]; reflexivity. }
+      rewrite Eop in *.
+      destruct (negate (m_heap m1) a) as [x| | |]; cbn [bind retag] in *;
+        [exfalso; eapply Hnok; reflexivity|apply (stops_at_now orc prog sa _ Hstep)..].
+  - (* EInt *)
+    intros st st' Hg H ce Hce prog Hcode Hconsts s Hip Hnok. exfalso. eapply Hnok. reflexivity.
+  - (* EBool *)
+    intros st st' Hg H ce Hce prog Hcode Hconsts s Hip Hnok. exfalso. eapply Hnok. reflexivity.
+  - (* EIdent *)
+    intros st st' Hg H ce Hce prog Hcode Hconsts s Hip Hnok. exfalso. rewrite ce_ident in H.
+    cbn [peval] in Hnok. destruct (resolve (c_symbols st) x) as [sy|]; [|discriminate H].
+    eapply Hnok. reflexivity.
+  - (* EAssign *)
+    destruct l as [| | | | | |x| | | | | | |]; try discriminate HF. specialize (IHr HF).
+    intros st st' Hg H ce Hce prog Hcode Hconsts s Hip Hnok.
+    rewrite ce_assign_ident in H.
+    destruct (resolve (c_symbols st) x) as [sy|] eqn:Er; [|discriminate H].
+    apply bind_ok in H. destruct H as [st1 [H1 H]].
+    apply bind_ok in H. destruct H as [st2 [H2 H3]].
+    unfold scoped in H2, H3. rewrite (gtab_resolve _ _ _ Hg Er) in H2, H3.
+    destruct (compile_expr_sim orc r HF st st1 (or_intror Hg) H1) as [Hs1 [ce1 [kx1 [Hc1 [Hk1 [Hf1 Hsim1]]]]]].
+    destruct (emit_sym_spec _ _ _ _ H2) as [Hs2 [Hk2 [Hr Hc2]]].
+    destruct (emit_sym_spec _ _ _ _ H3) as [Hs3 [Hk3 [_ Hc3]]].
+    set (idx := Z.of_nat (s_index sy)) in *.
+    assert (ce = ce1 ++ [byte_of_opcode OSetGlobal; idx mod 256; (idx / 256) mod 256]
+                  ++ [byte_of_opcode OGetGlobal; idx mod 256; (idx / 256) mod 256]) as ->.
+    { apply (app_inv_head (c_code st)). rewrite <- Hce, Hc3, Hc2, Hc1, <- !app_assoc. reflexivity. }
+    apply code_at_app in Hcode. destruct Hcode as [Hcode1 _].
+    assert (consts_ok prog (c_constants st1)) as Hk1ok by (rewrite <- Hk2, <- Hk3; exact Hconsts).
+    specialize (IHr st st1 Hg H1 ce1 Hc1 prog Hcode1 Hk1ok s Hip).
+    cbn [peval pfail] in *. rewrite Er in *.
+    destruct (peval orc (resolve (c_symbols st)) r (mst_of s)) as [[a m1]| | |]; cbn [bind] in *;
+      try (apply IHr; intros a0; discriminate).
+    exfalso. eapply Hnok. reflexivity.
+Qed.
